@@ -86,13 +86,13 @@ def _gen_one(a) -> Tuple[common.TLCResult, List[Dict[str, Any]]]:
 
 
 def _replay_task(a) -> Tuple[int, Dict[int, Dict[str, Any]], float]:
-    (idx, shape_json, hist, store_kind, mode, loads, options, eval_kwargs, root_base, accept) = a
+    (idx, shape_json, hist, store_kind, mode, loads, options, eval_kwargs, root_base, accept, pristine) = a
     shape = Shape.from_json(shape_json)
     root = os.path.join(root_base, "h%d_%s" % (idx, mode))
     t0 = time.time()
     try:
         obs = replay.replay(shape, hist, root, store_kind, mode=mode, loads_after_eval=loads,
-                            options=options, eval_kwargs=eval_kwargs, accept=accept)
+                            options=options, eval_kwargs=eval_kwargs, accept=accept, pristine_env=pristine)
     finally:
         replay.cleanup(root)
     return (idx, obs, time.time() - t0)
@@ -101,12 +101,13 @@ def _replay_task(a) -> Tuple[int, Dict[int, Dict[str, Any]], float]:
 def replay_many(items: List[Tuple[Shape, List[Dict[str, Any]]]], store_kind: str, mode: str = "dds",
                 loads: bool = False, options: Optional[Dict[str, Any]] = None,
                 eval_kwargs: Optional[Dict[str, Any]] = None,
-                budget_s: Optional[float] = None, accept: Optional[List[str]] = None) -> List[Optional[Dict[int, Dict[str, Any]]]]:
+                budget_s: Optional[float] = None, accept: Optional[List[str]] = None,
+                pristine: Optional[Dict[str, Any]] = None) -> List[Optional[Dict[int, Dict[str, Any]]]]:
     """Replays every (shape, history) in forked lanes; result list is aligned with items
     (None where the budget ran out)."""
     import_dds()
     base = common.sub_scratch("replay")
-    tasks = [(i, s.to_json(), h, store_kind, mode, loads, options, eval_kwargs, base, accept)
+    tasks = [(i, s.to_json(), h, store_kind, mode, loads, options, eval_kwargs, base, accept, pristine)
              for (i, (s, h)) in enumerate(items)]
     out: List[Optional[Dict[int, Dict[str, Any]]]] = [None] * len(items)
     t0 = time.time()
